@@ -76,9 +76,7 @@ impl FormMultipartData {
             let string = StringExt::filter_ascii_control_characters(&string);
             let string = StringExt::truncate_new_line_carriage_return(&string);
 
-            let _current_string_is_boundary =
-                string.replace(SYMBOL.hyphen, SYMBOL.empty_string)
-                    .ends_with(&boundary.replace(SYMBOL.hyphen, SYMBOL.empty_string));
+            let _current_string_is_boundary = FormMultipartData::is_boundary_line(b, &boundary);
 
             if !_current_string_is_boundary {
                 let message = format!("Body in multipart/form-data request needs to start with a boundary, actual string: '{}'", string);
@@ -110,9 +108,7 @@ impl FormMultipartData {
             let string = StringExt::filter_ascii_control_characters(&string);
             current_string_is_empty = string.trim().len() == 0;
 
-            let _current_string_is_boundary =
-                string.replace(SYMBOL.hyphen, SYMBOL.empty_string)
-                    .ends_with(&boundary.replace(SYMBOL.hyphen, SYMBOL.empty_string));
+            let _current_string_is_boundary = FormMultipartData::is_boundary_line(b, &boundary);
 
             if _current_string_is_boundary {
                 let message = "There is at least one missing body part in the multipart/form-data request";
@@ -168,16 +164,7 @@ impl FormMultipartData {
 
             bytes_read = bytes_read + bytes_offset as i128;
 
-            let escaped_dash_boundary = boundary.replace(SYMBOL.hyphen, SYMBOL.empty_string);
-
-            current_string_is_boundary = false;
-            if b.len() >= escaped_dash_boundary.len() {
-                let boxed_sequence = FormMultipartData::find_subsequence(b, escaped_dash_boundary.as_bytes());
-                if boxed_sequence.is_some() {
-                    current_string_is_boundary = true;
-                    _boundary_position = boxed_sequence.unwrap();
-                }
-            }
+            current_string_is_boundary = FormMultipartData::is_boundary_line(b, &boundary);
 
             if !current_string_is_boundary {
                 part.body.append(&mut buf.clone());
@@ -237,6 +224,36 @@ impl FormMultipartData {
         Ok(boundary.to_string())
     }
 
+    // line is a delimiter if it is the boundary, with or without two leading hyphens (Content-Type header
+    // contains boundary without them), closing delimiter has two trailing hyphens, line break and transport
+    // padding at the end of the line are not taken into account
+    fn is_boundary_line(line: &[u8], boundary: &str) -> bool {
+        if boundary.len() == 0 {
+            return false
+        }
+
+        let mut end = line.len();
+        while end > 0 && (line[end - 1].is_ascii_control() || line[end - 1] == b' ') {
+            end = end - 1;
+        }
+        let line = &line[..end];
+
+        let two_hyphens = [SYMBOL.hyphen, SYMBOL.hyphen].join(SYMBOL.empty_string);
+        let delimiter_list = [
+            boundary.to_string(),
+            [two_hyphens.as_str(), boundary].join(SYMBOL.empty_string)
+        ];
+        for delimiter in delimiter_list {
+            let closing_delimiter = [delimiter.as_str(), two_hyphens.as_str()].join(SYMBOL.empty_string);
+            if line == delimiter.as_bytes() || line == closing_delimiter.as_bytes() {
+                return true
+            }
+        }
+
+        false
+    }
+
+    #[allow(dead_code)]
     fn find_subsequence(haystack: &[u8], needle: &[u8]) -> Option<usize> {
         haystack.windows(needle.len()).position(|window| window == needle)
     }
